@@ -559,3 +559,5 @@ func init() {
 		},
 	})
 }
+
+func raRender(e *ra.Expr, r *rand.Rand) string { return ra.Render(ra.Tokens(e), r, false) }
